@@ -227,8 +227,17 @@ async function pkgOp (req) {
     table.set(req.file + '\0' + req.code, { ok: req.native })
     const out = {}
     for (const [k, C] of [['cache', p.Rewriter], ['nocache', p.NonCacheRewriter]]) {
-      const r = new C(req.config || {}).rewrite(req.code, req.file)
+      const inst = new C(req.config || {})
+      const r = inst.rewrite(req.code, req.file)
       out[k] = { same: r.content === req.code, status: r.metrics && r.metrics.status, len: r.content.length }
+      if (req.codeA && req.codeB) {
+        // the native result for A and B is the same "not modified" answer
+        table.set(req.file + '\0' + req.codeA, { ok: req.native })
+        table.set(req.file + '\0' + req.codeB, { ok: req.native })
+        const ra = inst.rewrite(req.codeA, req.file)
+        const rb = inst.rewrite(req.codeB, req.file)
+        out[k].sameSeq = ra.content === req.codeA && rb.content === req.codeB
+      }
     }
     return out
   }
